@@ -584,7 +584,7 @@ def random_case(rng: random.Random, tables) -> Case:
     n_md = rng.choice([0, 1, 1, 2, 3])
     bad = None
     if r < 0.22:
-        bad = rng.choice(["decl", "backend", "arity0", "arity2", "nonstring", "nonstring-expr"])
+        bad = rng.choice(["decl", "backend", "arity0", "arity2", "nonstring", "nonstring-expr", "keyword", "keyword"])
     for i in range(n_md):
         md.append(gen_decl(rng, b, tables, b))
     if bad == "decl":
@@ -607,6 +607,11 @@ def random_case(rng: random.Random, tables) -> Case:
         uses[rng.randrange(len(uses))].args = [rng.choice(BANKS), rng.choice(BANKS)]
     elif bad == "nonstring":
         uses[rng.randrange(len(uses))].args = [(rng.choice(["1", "2.5", "True"]),)]
+    elif bad == "keyword":
+        # the bank passed by keyword (no positional argument at all), or a positional bank plus a keyword: malformed calls
+        kw = rng.choice(["name", "bank", "collection_name", "tag", "label"])
+        bank = rng.choice(BANKS)
+        uses[rng.randrange(len(uses))].args = [(f"{kw}={bank!r}",)] if rng.random() < 0.7 else [(f"{bank!r}, {kw}={rng.choice(BANKS)!r}",)]
     elif bad == "nonstring-expr":
         uses[rng.randrange(len(uses))].args = [(rng.choice(["'a' + 'b'", "e", "('x',)"]),)]
     pos = "tuple"
@@ -851,7 +856,7 @@ def check(tier: str, seed: int, t0: float, build: core.BuildStatus) -> int:
     missing = [f"{b}.{n}" for b in BACKENDS for n in tables[b] if (b, n) not in builtins_covered]
     oc.rule = (f"corpus ({n_corpus}) + every built-in collection of the three tables x {len(BANKS)} bank strings alone, and with {6 if tier == 'quick' else len(BANKS)} bank strings in "
                f"{{two different collections, same collection twice (same / different bank), nested lambda, Where predicate, SelectMany}} ({len(bi)} queries) "
-               f"+ {n_random} random cases (0-3 metadata declarations incl. overrides of built-ins, 22% malformed: bad declaration keys, foreign backend, arity 0/2, non-string argument) "
+               f"+ {n_random} random cases (0-3 metadata declarations incl. overrides of built-ins, 22% malformed: bad declaration keys, foreign backend, arity 0/2, non-string argument, bank passed by keyword) "
                f"+ {len(seqs)} query sequences on one executor object each ({seq_steps} queries: declaration overriding every built-in + a new name, then metadata-free queries; {n_seq_random} random sequences of 2-4 cases) "
                f"+ {n_sub} substitution lines against re.sub; non-trivial = at least two collection uses or a declaration; distinct by (backend, query text, metadata)")
     oc.samples = [c.to_json(tables) for c in (bi[1], bi[len(bi) // 2], cases[n_corpus + len(bi)], cases[-1])]
